@@ -35,10 +35,21 @@ NAMES = ["camera", "lights", "tex", "smp", "data", "out_buf", "params", "Δ", "x
          "camX_naga_oil_mod_XMNXW23LPNYX", "camX_naga_oil_mod_XOBRHEX", "cam", "lightsX_naga_oil_mod_XMNXW23LPNYX"]
 
 
+UNBOUND = ["var<private> scratch_{k}: f32;", "var<workgroup> wg_tile_{k}: array<u32, 4>;", "var<private> state{k}: vec4<f32>;"]
+
+
 def render(decls, rng):
     lines = ["struct U { a: vec4<f32>, b: f32 }"]
     for (g, b, name, kind) in decls:
         lines.append("@group(%d) @binding(%s) %s" % (g, ("%du" % b) if b >= 2 ** 31 else str(b), KINDS[kind][0].format(n=name)))
+    if rng.random() < 0.35:
+        # module-scope variables WITHOUT a binding (private / workgroup / push constant) before, between and after the
+        # resources: they are no resources and must not end, shift or shadow the resource list
+        extra = [rng.choice(UNBOUND).format(k=k) for k in range(rng.randint(1, 3))]
+        if rng.random() < 0.5:
+            extra.append("var<push_constant> pc_block: vec4<f32>;")
+        for e in extra:
+            lines.insert(rng.choice([1, 1, rng.randint(1, len(lines))]), e)
     lines.append("@compute @workgroup_size(1) fn main() {}")
     return "\n".join(lines) + "\n"
 
